@@ -68,6 +68,75 @@ def worker(case, led):
                           f"O|a>: sector label {r.qntot} (expected {qn_want.tolist()}), leak {leak:.1e}, labels {T.qnv_tree_violations(r)[:1]}", key + (str(q),), {}, dict(rep, sector=q))
             except Exception as e:
                 led.check(False, "post:TTNO.apply:charged_operator_total", "TTNO.apply", f"raised {type(e).__name__}: {e}", key + (str(q),), {}, dict(rep, sector=q))
+    # sums of charged operators of one charge: operator bonds with non-uniform labels, applied to states with bonds wider than one; the labels of the image must
+    # describe its non-zero blocks so that label-driven canonicalisation and compression at full rank keep the vector
+    by_charge = {}
+    for op, ch in ch_ops:
+        by_charge.setdefault(tuple(int(x) for x in np.asarray(ch).reshape(-1)), []).append(op)
+    for ch, ops in list(by_charge.items())[:2]:
+        if len(ops) < 2:
+            continue
+        ops = [o * (0.3 + 0.2 * i) for i, o in enumerate(ops)]
+        key = (repr(su["shape"]), flavour, seed, "charged-sum", ch)
+        rep = dict(TU.describe_tree(bt), flavour=flavour, seed=seed, ops=[repr(o) for o in ops], charge=list(ch))
+        try:
+            O = TTNO(bt, ops)
+            Od = U_.dense_terms(model, ops)
+        except Exception as e:
+            led.ok("skipped:TTNO.__init__:charged_sum_not_constructible", "TTNO.__init__", key, nontrivial=False)
+            continue
+        for q in sectors[:4]:
+            a = TU.random_ttns(bt, q, 3, rng)
+            if a is None:
+                continue
+            want = Od @ T.dense_ttns(a, order)
+            if np.abs(want).max() <= 1e-12:
+                continue
+            try:
+                r = O.apply(a)
+                bad = T.qnv_tree_violations(r)
+                r2 = r.copy().canonicalise()
+                from renormalizer.utils import CompressConfig, CompressCriteria
+                r2.compress_config = CompressConfig(CompressCriteria.fixed, max_bonddim=64)
+                r2.compress()
+                w = T.dense_ttns(r2, order)
+                led.check(not bad and np.abs(w - want).max() <= 1e-9, "post:TTNO.apply:charged_sum_labels_describe_the_blocks", "TTNO.apply",
+                          f"labels {bad[:1]}; after canonicalise + full-rank compress the vector differs by {np.abs(w - want).max():.1e}", key + (str(q),), {}, dict(rep, sector=q))
+            except Exception as e:
+                led.check(False, "post:TTNO.apply:charged_sum_total", "TTNO.apply", f"raised {type(e).__name__}: {e}", key + (str(q),), {}, dict(rep, sector=q))
+    # chain states converted to trees (from_mps): same sector, labels describe the blocks, label-driven operations keep the vector
+    if flavour == "spinqn" and n_nodes >= 3:
+        from renormalizer.mps import Mps
+        from renormalizer.tn.tree import from_mps
+        for q in sectors[:4]:
+            key = (repr(su["shape"]), flavour, seed, "from_mps", str(q))
+            rep = dict(flavour=flavour, seed=seed, sector=q, n=len(order))
+            try:
+                np.random.seed(seed + 17)
+                from renormalizer.model import Model
+                model_h = Model(list(model.basis), [op for op, ch, s_ in U_.elem_ops(model) if not any(ch)][:3])     # from_mps also builds the operator of the model
+                mps = Mps.random(model_h, q, 4, percent=1.0)
+            except Exception:
+                led.ok("skipped:Mps.random:sector_not_representable", "Mps.random", key, nontrivial=False)
+                continue
+            ref = S.dense(mps, with_coeff=False).reshape(-1)
+            if np.abs(ref).max() <= 1e-12:
+                continue
+            try:
+                b2, t2, _o2 = from_mps(mps)
+                bad = T.qnv_tree_violations(t2)
+                v0 = T.dense_ttns(t2, list(model.basis))
+                t3 = t2.copy().canonicalise()
+                from renormalizer.utils import CompressConfig, CompressCriteria
+                t3.compress_config = CompressConfig(CompressCriteria.fixed, max_bonddim=64)
+                t3.compress()
+                v1 = T.dense_ttns(t3, list(model.basis))
+                led.check(not bad and np.array_equal(np.asarray(t2.qntot).reshape(-1), np.asarray(mps.qntot).reshape(-1)) and np.abs(v0 - ref).max() <= 1e-10 and np.abs(v1 - ref).max() <= 1e-9,
+                          "post:from_mps:tree_state_in_the_sector_with_labels_describing_the_blocks", "from_mps",
+                          f"labels {bad[:1]}; qntot {t2.qntot} vs {mps.qntot}; dense differs by {np.abs(v0 - ref).max():.1e}, after canonicalise + full-rank compress by {np.abs(v1 - ref).max():.1e}",
+                          key, {}, rep)
+            except Exception as e:
+                led.check(False, "post:from_mps:total", "from_mps", f"raised {type(e).__name__}: {e}", key, {}, rep)
     for q in sectors:           # every sector incl. empty / completely filled
         for m in (1, 3):
             a = TU.random_ttns(bt, q, m, rng)
